@@ -95,7 +95,15 @@ fn gen_hw(rng: &mut Rng, fake: bool, faulty: bool) -> HwDesc {
             ids.push(id);
         }
     }
+    if words >= 2 && rng.chance(1, 4) {
+        // The highest processor id sits exactly on a 64-bit word boundary (an id space of 64k+1
+        // processors): the last word of every mask then holds a single bit.
+        let top = 64 * rng.range(1, u64::from(words) - 1) as u32;
+        ids.retain(|i| *i < top);
+        ids.push(top);
+    }
     ids.sort_unstable();
+    let n = ids.len();
     let n_regions = rng.range_usize(1, 4);
     let region_ids: Vec<u32> = if rng.chance(1, 3) {
         sorted_dedup((0..n_regions).map(|_| rng.below(7) as u32).collect())
